@@ -1,5 +1,6 @@
 import ZChain.Proofs.Round
 import ZChain.Proofs.RoundConc
+import ZChain.Proofs.RoundFinConc
 /-!
 # C37 — Round state transitions are monotone and never deadlock
 
@@ -459,6 +460,40 @@ theorem phase_monotone_conc_false :
 theorem phase_monotone_conc_false_two_unlocked :
     Conc.trace (Conc.initCS 0 [Conc.setPhaseI Verify, Conc.setPhaseI Complete]) [0, 1, 1, 0] = [0, 0, 0, 4, 1] := by
   decide
+
+/-! ## finalizing state under concurrency (all interleavings of atomic steps) -/
+
+/-- **finalized_stays_conc**: any number of threads, each making any sequence of calls of
+`ResetFinalizingStateIfNotFinalized`, `SetFinalizing` and `Finalize`/`SetFinalized` (as the atomic-step lists they are
+in the code: test and store inside ONE critical section of `r.mutex`), from any initial state, under EVERY schedule:
+once the round is finalized at some point of the schedule, it is finalized at every later point. -/
+theorem finalized_stays_conc (fin : Nat) (number : Int) (progs : List (List FinConc.Call)) (before after : List Nat)
+    (h : (FinConc.crun (FinConc.initCS fin number (progs.map FinConc.prog)) before).isFinalized = true) :
+    (FinConc.crun (FinConc.initCS fin number (progs.map FinConc.prog)) (before ++ after)).isFinalized = true := by
+  rw [FinConc.crun_append]
+  exact (FinConc.crun_inv after _ (FinConc.crun_inv' before _ (FinConc.init_inv fin number progs)) h).2
+
+/-- one step form: no atomic step of any thread un-finalizes the round -/
+theorem finalized_stays_conc_step (fin : Nat) (number : Int) (progs : List (List FinConc.Call)) (sched : List Nat) (i : Nat)
+    (h : (FinConc.crun (FinConc.initCS fin number (progs.map FinConc.prog)) sched).isFinalized = true) :
+    (FinConc.cstep (FinConc.crun (FinConc.initCS fin number (progs.map FinConc.prog)) sched) i).isFinalized = true :=
+  (FinConc.cstep_inv _ i (FinConc.crun_inv' sched _ (FinConc.init_inv fin number progs))).2 h
+
+/-- **the single critical section is needed** — NOT the code: a conditional reset that tests under the read lock,
+releases it, and stores under the write lock (`resetIfNotSplitI`) loses a finalization. Round 5 is Finalizing;
+thread 0 runs the split reset, thread 1 runs `Finalize`. Schedule: 0 tests (sees Finalizing) and releases the read
+lock; 1 locks, stores Finalized, unlocks; 0 locks and stores NotFinalized. The state goes 1 → 2 → 0.
+(This is the regression the stress search `C37:finalized-lost-under-concurrent-reset` looks for on the real code.) -/
+theorem finalized_lost_without_single_critical_section :
+    FinConc.trace (FinConc.initCS Finalizing 5 [FinConc.resetIfNotSplitI, FinConc.Call.finalize.instrs])
+      [0, 0, 0, 1, 1, 1, 0, 0, 0] = [1, 1, 1, 1, 1, 2, 2, 2, 0, 0] := by decide
+
+/-- the same schedule of thread steps with the code's own reset: thread 0 cannot be in the middle when thread 1
+stores (it holds the mutex from its test to its store, thread 1's `lock` does not move), and the round ends finalized -/
+example : (FinConc.crun (FinConc.initCS Finalizing 5 [FinConc.Call.resetIfNot.instrs, FinConc.Call.finalize.instrs])
+    [0, 0, 1, 1, 0, 0, 1, 1, 1]).fin = Finalized := by decide
+example : (FinConc.crun (FinConc.initCS Finalizing 5 [FinConc.Call.resetIfNot.instrs, FinConc.Call.finalize.instrs])
+    [1, 1, 0, 1, 0, 0, 0, 0]).fin = Finalized := by decide
 
 /-! ## non-vacuity -/
 
